@@ -480,7 +480,7 @@ PROPS = {
         "props_module": "Aldrin.Props.C18",
         "namespace": "Aldrin.Schema",
         "level": "proof",
-        "run": generic_run("fmtc", {"sast", "sfmt"}, {"C18"}, {"quick": (1500, 4), "thorough": (20000, 14)},
+        "run": generic_run("fmtc", {"sast", "sfmt", "sval"}, {"C18"}, {"quick": (1500, 4), "thorough": (20000, 14)},
                            canon=None, corpus="fmt.txt",
                            rule="random schema sources as text: every construct of the grammar (imports, structs, enums, newtypes, "
                                 "consts of all kinds, services with functions / events in all body forms, inline structs and enums, "
